@@ -36,6 +36,9 @@ Class ==
     num_cased  |-> [st |-> "number", cat |-> "Nx", ucat |-> "Nx"],
     us         |-> [st |-> "delim",  cat |-> "P",  ucat |-> "P"],
     delim      |-> [st |-> "delim",  cat |-> "P",  ucat |-> "P"],
+    \* white space (space, tab, U+00A0, U+2003, U+2028): a delimiter like any other for the identifier; kept apart
+    \* because the struct TAG must carry it verbatim (runs of blanks, non-ASCII blanks)
+    ws         |-> [st |-> "delim",  cat |-> "P",  ucat |-> "P"],
     delim_cased |-> [st |-> "delim", cat |-> "P",  ucat |-> "P"],
     delim_upper |-> [st |-> "delim", cat |-> "P",  ucat |-> "Lu"] ]
 ClassIds == DOMAIN Class
